@@ -392,10 +392,38 @@ def drain : List (List Byte) → St → List Call → St × List Call
     let r := process s m
     drain ms r.1 (log ++ r.2.toList)
 
+/-- a reply command may register a follow-up request while it handles its reply (`await` called from inside the
+    handler, `follow t` = tag of the new request): this happens after the command's own registration has been
+    released (fixes in connection_dispatch.c / io_stream.cpp / stream_sync.c: release first, then call) -/
+def followUp (follow : Nat → Option Nat) (s : St) (t : Nat) : St :=
+  match follow t with
+  | none => s
+  | some t' =>
+    match await s t' with
+    | some (s', _) => s'
+    | none => s
+
+/-- no command registers a follow-up request -/
+abbrev noFollow : Nat → Option Nat := fun _ => none
+
+/-- `process` with commands that register follow-up requests -/
+def processF (follow : Nat → Option Nat) (s : St) (m : List Byte) : St × Option Call :=
+  let r := process s m
+  match r.2 with
+  | some ⟨some t, _⟩ => (followUp follow r.1 t, r.2)
+  | _ => r
+
+def drainF (follow : Nat → Option Nat) : List (List Byte) → St → List Call → St × List Call
+  | [], s, log => ({ s with inq := [] }, log)
+  | m :: ms, s, log =>
+    let r := processF follow s m
+    drainF follow ms r.1 (log ++ r.2.toList)
+
 /-- message loop of `mpt_stream_sync`: runs while handlers wait; `fails t` = the command with tag `t` reports failure
     (returns < 0): its reply is consumed and the command released like any other, then the loop is left
     (`if (ret < 0) break`).  Result: state, calls, left the loop regularly? -/
-def syncLoop (fails : Nat → Bool) : List (List Byte) → St → Nat → List Call → St × List Call × Bool
+def syncLoop (fails : Nat → Bool) (follow : Nat → Option Nat) :
+    List (List Byte) → St → Nat → List Call → St × List Call × Bool
   | q, s, 0, log => ({ s with inq := q }, log, true)
   | [], s, _, log => ({ s with inq := [] }, log, false)           -- no further input: `return count`
   | m :: ms, s, count + 1, log =>
@@ -405,24 +433,26 @@ def syncLoop (fails : Nat → Bool) : List (List Byte) → St → Nat → List C
       | .ok (rid, _) =>
         match findActive (s.arr.getD []) rid with
         | some t =>
-          if fails t then
-            ({ s with arr := s.arr.map (deactivate · rid), inq := ms }, log ++ [⟨some t, some (m.drop s.idlen)⟩], true)
-          else syncLoop fails ms { s with arr := s.arr.map (deactivate · rid) } count (log ++ [⟨some t, some (m.drop s.idlen)⟩])
-        | none => syncLoop fails ms s (count + 1) log       -- no handler, no fallback: dropped
+          -- released, called (the command may register a follow-up request), commands counted again
+          let s1 := followUp follow { s with arr := s.arr.map (deactivate · rid) } t
+          let log1 := log ++ [⟨some t, some (m.drop s.idlen)⟩]
+          if fails t then ({ s1 with inq := ms }, log1, true)
+          else syncLoop fails follow ms s1 (active (s1.arr.getD [])).length log1
+        | none => syncLoop fails follow ms s (count + 1) log       -- no handler, no fallback: dropped
       | _ => ({ s with inq := m :: ms }, log, false)
 
 /-- `io::stream::sync` → `mpt_stream_sync(_srm, _idlen, &_wait, 0)` -/
-def sync (fails : Nat → Bool) (s : St) : St × List Call :=
+def sync (fails : Nat → Bool) (follow : Nat → Option Nat) (s : St) : St × List Call :=
   match s.arr with
   | none => (s, [])
   | some es =>
     if es.length = 0 ∨ s.idlen = 0 then (s, []) else
     let count := (active es).length
-    let r := syncLoop fails s.inq s count []
+    let r := syncLoop fails follow s.inq s count []
     let s1 := r.1
     let es1 := s1.arr.getD []
-    -- "compress waiting return commands" when at most half of the entries still wait
-    if r.2.2 ∧ (active es1).length ≤ es.length / 2 then ({ s1 with arr := some (active es1) }, r.2.1)
+    -- "compress waiting return commands" when at most half of the entries (of the array as it is now) still wait
+    if r.2.2 ∧ (active es1).length ≤ es1.length / 2 then ({ s1 with arr := some (active es1) }, r.2.1)
     else (s1, r.2.1)
 
 /-- `push(1, NULL)`: the request being composed is cancelled, its handler is told so -/
@@ -440,19 +470,19 @@ inductive ROp where
   | sync (frames : List (List Byte))       -- peer frames arrive, then `sync`
   deriving Repr, DecidableEq
 
-def rstep (fails : Nat → Bool) (s : St) : ROp → St × List Call
+def rstep (fails : Nat → Bool) (follow : Nat → Option Nat) (s : St) : ROp → St × List Call
   | .await tag => match await s tag with
     | some (s', _) => (s', [])
     | none => (s, [])
   | .send d => ((send s d).1, [])
-  | .answer fs => drain (s.inq ++ fs) s []
-  | .sync fs => sync fails { s with inq := s.inq ++ fs }
+  | .answer fs => drainF follow (s.inq ++ fs) s []
+  | .sync fs => sync fails follow { s with inq := s.inq ++ fs }
 
-def rrun (fails : Nat → Bool) : St → List ROp → St × List Call
+def rrun (fails : Nat → Bool) (follow : Nat → Option Nat) : St → List ROp → St × List Call
   | s, [] => (s, [])
   | s, op :: ops =>
-    let r := rstep fails s op
-    let r2 := rrun fails r.1 ops
+    let r := rstep fails follow s op
+    let r2 := rrun fails follow r.1 ops
     (r2.1, r.2 ++ r2.2)
 
 end Requester
